@@ -1558,8 +1558,11 @@ class Executor:
                             bctx = self.ctx(o.p)
                             for g, src in ls.ghost.items():
                                 pass
-                            for cl in ls.invariant:
-                                self.oblige(o.p, self.spec.bool(cl.ast, bctx), f'{fshort}/{cl.name}/preserve',
+                            # evaluate every clause first: definitional facts (unfoldings) produced while
+                            # evaluating one clause are available to all obligations of this back edge
+                            goals = [(cl, self.spec.bool(cl.ast, bctx)) for cl in ls.invariant]
+                            for cl, g in goals:
+                                self.oblige(o.p, g, f'{fshort}/{cl.name}/preserve',
                                             cl.props, 'loop-preserve', s.lineno)
                             if ls.variant is not None:
                                 v1 = ops.as_int(self.spec.ev(ls.variant.ast, bctx)).z
